@@ -3,6 +3,7 @@ import Proofs.Settle
 import Proofs.Rules
 import Proofs.MatchSound
 import Proofs.MatchExample
+import Proofs.Mirror
 /-! Property theorems of C01 live in the imported files; the list audited on every run is in harness/props/c01.py.
 The per-program theorem is `Facto.scalar_end_to_end` (Proofs/MatchSound.lean); `Proofs/MatchExample.lean`
 instantiates it on a concrete circuit (non-vacuity). -/
